@@ -10,6 +10,16 @@ use crate::{
     model::Model,
 };
 
+/// The text of a number used as text: 15 significant digits, like everywhere else a number
+/// is shown, and no negative zero
+pub(crate) fn number_to_text(f: f64) -> String {
+    if f == 0.0 {
+        "0".to_string()
+    } else {
+        format!("{}", to_excel_precision(f, 15))
+    }
+}
+
 pub(crate) enum NumberOrArray {
     Number(f64),
     Array(Vec<Vec<ArrayNode>>),
@@ -311,11 +321,7 @@ impl<'a> Model<'a> {
     ) -> Result<String, CalcResult> {
         match result {
             // 15 significant digits, like everywhere else a number is shown; -0 is 0
-            CalcResult::Number(f) => Ok(if f == 0.0 {
-                "0".to_string()
-            } else {
-                format!("{}", to_excel_precision(f, 15))
-            }),
+            CalcResult::Number(f) => Ok(number_to_text(f)),
             CalcResult::String(s) => Ok(s),
             CalcResult::Boolean(f) => {
                 if f {
